@@ -285,6 +285,20 @@ def _cache_rule(ctx, rid, c):
                          expected=A.short(node.value, 80), found=A.short(assigns[a].value, 80), node=assigns[a])
         else:
             ctx.holds(rid, f"{site}: {a}", f"re-derived in {refresher.name} after {shape_attr}")
+    # inside each refresher, a shape-dependent attribute may only be read after it was re-derived there
+    for meth in [refresher] + backend_refreshers:
+        done = set()
+        for n in A.walk_ordered(meth.node, into_defs=False):
+            if isinstance(n, ast.Assign):
+                reads = {A.dotted(x) for x in ast.walk(n.value) if isinstance(x, ast.Attribute) and isinstance(x.ctx, ast.Load)}
+                stale = sorted(a for a in reads if a in dep_attrs and a not in done)
+                if stale:
+                    ctx.violated(rid, meth, n, f"`{A.short(n, 70)}` reads {stale[0]} before {meth.name} has re-derived it: the value used still has the shape of the previous call (result depends on call history)",
+                                 expected=f"{stale[0]} assigned earlier in {meth.name}, or a fresh tensor of the new shape", node=n)
+                for t in n.targets:
+                    d = A.dotted(t)
+                    if d:
+                        done.add(d)
     # early return compares whole shapes
     guards = [n for n in ast.walk(refresher.node) if isinstance(n, ast.If) and any(isinstance(x, ast.Return) for x in n.body)]
     for gd in guards:
